@@ -6,7 +6,7 @@ DRIVER = "c02_driver"
 HARNESS = "c02"
 COUNTS = {"quick": 3000, "thorough": 60000}
 DESIGN_REF = "DESIGN.md §4 C02"
-TECHNIQUE = "Coq proof (canonical form, uniqueness, order-independence, round-trip, length law) + gotrans regeneration + differential run of the extracted model"
+TECHNIQUE = "Coq proof (canonical form, uniqueness, order-independence, round-trip, length law) + gotrans regeneration (uintLength, constants, the sort.Slice key comparators) + differential run of the extracted model"
 LEVEL_TEXT = ("Theorems in coq/Props/C02.v about the executable model coq/Codec/Cbor.v (encoder = marshal + refmt "
               "encoder; decoder = unmarshal + refmt tokenizer): the encoder output is the canonical DAG-CBOR form, "
               "that form is unique per value, independent of map insertion order, decodes back to the key-sorted "
@@ -16,7 +16,7 @@ LEVEL_TEXT = ("Theorems in coq/Props/C02.v about the executable model coq/Codec/
 LEVEL_NOTE = ("Trusted: Coq kernel, extraction, gotrans, the Go harness and generators; refmt and go-cid are modelled by "
               "hand (tied only by the differential run). sort.Slice is assumed to sort correctly.")
 TRUSTED = ["refmt v0.90 CBOR encoder/tokenizer and go-cid: hand-modelled in coq/Codec/Cbor.v, Cid.v; tied by correspondence only",
-           "Go sort.Slice sorts correctly w.r.t. the comparator (the model uses insertion sort; uniqueness of the sorted permutation is proved)"]
+           "Go sort.Slice sorts correctly w.r.t. the comparator it is given (the model uses insertion sort; uniqueness of the sorted permutation is proved); the comparator closures themselves are translated from the source by gotrans and proved equal to the model's orders (C02_source_key_order), taking Go's string < to be bytewise (GoSem.str_ltb)"]
 RULE = ("values from the structured generator (boundary pools for ints/floats/strings/lengths, CIDs v0/v1), each in 3 "
         "insertion orders and in basicnode/bindnode holders, plus other sort modes; distinct = distinct "
         "(options, holder, value-as-inserted); non-trivial = value text longer than 8 characters")
